@@ -7,6 +7,7 @@
   (guard zones, poison, quarantine, relocate-always), not modelled.
 -/
 import AnyVecModel.Props.C06
+import AnyVecModel.Props.Hist
 namespace AnyVec
 namespace C05
 open World
@@ -78,6 +79,15 @@ example : (hSlot { v := 0, kind := .swapRemove 0 0 1, typed := false }
     { vecs := [{ ty := 0, size := 8, align := 8, hasDrop := true, cloneable := true, bk := .heap, cap := 4,
                  cells := [.val 1, .val 2], len := 0, gen := 1, live := true }] }).2
     = .ub "stale element pointer (storage moved)" := by decide
+
+/-! ### over whole histories -/
+
+/-- **history theorem**: from every world reachable by core script steps, the next core step — under
+every fault state — returns or panics; it never reads or writes outside the capacity, never reads an
+uninitialised or moved-out slot, and never uses an element pointer taken before a capacity change. -/
+theorem history_no_memory_fault_core (cfg : Cfg) (w : World) (hr : Hist.Reach cfg w) (op : Op) (f : Option Nat)
+    (hc : Hist.Core op) (hv : Hist.Valid w.vecs op) : (runStep cfg op f w).2.notUb :=
+  Hist.reach_no_ub_core cfg w hr op f hc hv
 
 end C05
 end AnyVec
